@@ -221,7 +221,7 @@ func checkMakeRootLink(c *Ctx, fn *ssa.Function, sts []fxFieldStore) {
 		}
 		for _, s := range stores {
 			call, idx := fxCallOf(s.Val)
-			if call == nil || idx != 0 || flush == nil || call.Call.StaticCallee() != flush {
+			if call == nil || idx != 0 || flush == nil || ir.Callee(call.Call) != flush {
 				return false
 			}
 		}
@@ -235,7 +235,7 @@ func checkMakeRootLink(c *Ctx, fn *ssa.Function, sts []fxFieldStore) {
 			}
 		}
 		if e, ok := v.(*ssa.Extract); ok && e.Index == 0 {
-			if call, ok := e.Tuple.(*ssa.Call); ok && flush != nil && call.Call.StaticCallee() == flush {
+			if call, ok := e.Tuple.(*ssa.Call); ok && flush != nil && ir.Callee(call.Call) == flush {
 				return true
 			}
 		}
@@ -325,7 +325,7 @@ func checkLoadMastRoot(c *Ctx, fn *ssa.Function, recv *ssa.Parameter, sts []fxFi
 					continue
 				}
 				call, _ := v.(*ssa.Call)
-				if call == nil || call.Call.StaticCallee() == nil || !ir.IsPtrToNamed(call.Type(), "mastNode") || mentionsValue(call, isLinkLoad, 0) {
+				if call == nil || ir.Callee(call.Call) == nil || !ir.IsPtrToNamed(call.Type(), "mastNode") || mentionsValue(call, isLinkLoad, 0) {
 					bad = "Mast.root of an empty root is " + ir.Sym(v) + ", not an empty node"
 				}
 			}
@@ -570,7 +570,7 @@ func runCtor(c *Ctx) {
 	for _, fn := range c.P.Funcs {
 		for _, ci := range CallsOf(fn) {
 			com := ci.Common()
-			if com.IsInvoke() || com.StaticCallee() != nil {
+			if com.IsInvoke() || ir.Callee(com) != nil {
 				continue
 			}
 			b, p, ok := fxFieldLoad(com.Value)
@@ -756,7 +756,7 @@ func staticCallsIn(fn *ssa.Function) []*ssa.Call {
 	var out []*ssa.Call
 	for _, b := range fn.Blocks {
 		for _, ins := range b.Instrs {
-			if c, ok := ins.(*ssa.Call); ok && c.Call.StaticCallee() != nil {
+			if c, ok := ins.(*ssa.Call); ok && ir.Callee(c.Call) != nil {
 				out = append(out, c)
 			}
 		}
@@ -781,7 +781,7 @@ func lengthDecoder(fn *ssa.Function) string {
 	}
 	buf := byteSliceParam(fn)
 	for _, c := range staticCallsIn(fn) {
-		n := fxFullName(c.Call.StaticCallee())
+		n := fxFullName(ir.Callee(c.Call))
 		if (n == "encoding/binary.Uvarint" || n == "encoding/binary.Varint") && buf != nil && len(c.Call.Args) == 1 && fxStripNoConv(c.Call.Args[0]) == ssa.Value(buf) {
 			return n
 		}
@@ -797,7 +797,7 @@ func bytesDecoder(fn *ssa.Function) *ssa.Call {
 	}
 	var lc *ssa.Call
 	for _, c := range staticCallsIn(fn) {
-		if lengthDecoder(c.Call.StaticCallee()) != "" {
+		if lengthDecoder(ir.Callee(c.Call)) != "" {
 			lc = c
 		}
 	}
@@ -826,57 +826,128 @@ type sliceDecoderInfo struct {
 	BodyCell *ssa.Alloc
 }
 
-// sliceDecoder classifies fn as a decoder of a length-prefixed list.
+// decoderGroup is fn together with the static in-repo functions it calls
+// (depth ≤ 2) and the function literals created by any of them: the code that
+// makes up one list decoder, however it is split into helpers and closures.
+func decoderGroup(fn *ssa.Function) []*ssa.Function {
+	seen := map[*ssa.Function]bool{}
+	var out []*ssa.Function
+	var add func(f *ssa.Function, depth int)
+	add = func(f *ssa.Function, depth int) {
+		if f == nil || f.Blocks == nil || seen[f] || !fxOwnFunc(f) {
+			return
+		}
+		seen[f] = true
+		out = append(out, f)
+		for _, b := range f.Blocks {
+			for _, ins := range b.Instrs {
+				switch x := ins.(type) {
+				case *ssa.MakeClosure:
+					if g, ok := x.Fn.(*ssa.Function); ok {
+						add(g, depth)
+					}
+				case *ssa.Call:
+					if sc := ir.Callee(x.Call); sc != nil && depth < 2 {
+						add(sc, depth+1)
+					}
+					// a function literal without captures is passed as a plain function value
+					for _, a := range x.Call.Args {
+						if g, ok := a.(*ssa.Function); ok && g.Parent() != nil {
+							add(g, depth)
+						}
+					}
+				}
+			}
+		}
+	}
+	add(fn, 0)
+	return out
+}
+
+// fromParamOrCapture: v is a parameter or a captured variable (possibly read
+// through its cell).
+func fromParamOrCapture(v ssa.Value) bool {
+	v = fxStripNoConv(v)
+	if u, ok := v.(*ssa.UnOp); ok && u.Op == token.MUL {
+		v = u.X
+	}
+	switch v.(type) {
+	case *ssa.Parameter, *ssa.FreeVar:
+		return true
+	}
+	return false
+}
+
+// sliceDecoder classifies fn as a decoder of a length-prefixed list: somewhere
+// in its group a varint length is read, a loop reads length-prefixed bodies,
+// and each body becomes either a string ("string") or a value unmarshalled
+// into reflect.New(elemT) by the caller-supplied function ("eface").
 func sliceDecoder(fn *ssa.Function) *sliceDecoderInfo {
 	if fn == nil || fn.Blocks == nil || byteSliceParam(fn) == nil {
 		return nil
 	}
 	info := &sliceDecoderInfo{}
-	for _, c := range staticCallsIn(fn) {
-		callee := c.Call.StaticCallee()
-		if lengthDecoder(callee) != "" && info.Length == nil {
-			info.Length = c
+	var loopFn *ssa.Function
+	isString, usesReflectNew, callsFuncParam := false, false, false
+	for _, g := range decoderGroup(fn) {
+		if lengthDecoder(g) != "" || bytesDecoder(g) != nil {
+			continue // the primitives themselves
 		}
-		if bytesDecoder(callee) != nil {
-			info.Bytes = c
-			if len(c.Call.Args) == 2 {
-				info.BodyCell, _ = c.Call.Args[1].(*ssa.Alloc)
+		for _, c := range staticCallsIn(g) {
+			callee := ir.Callee(c.Call)
+			if lengthDecoder(callee) != "" && info.Length == nil {
+				info.Length = c
+			}
+			if bytesDecoder(callee) != nil {
+				info.Bytes = c
+				loopFn = g
+				if len(c.Call.Args) == 2 {
+					info.BodyCell, _ = c.Call.Args[1].(*ssa.Alloc)
+				}
+			}
+			if fxFullName(callee) == "reflect.New" && fromParamOrCapture(c.Call.Args[0]) {
+				usesReflectNew = true
+			}
+		}
+		for _, b := range g.Blocks {
+			for _, ins := range b.Instrs {
+				switch x := ins.(type) {
+				case *ssa.Call:
+					if !x.Call.IsInvoke() && ir.Callee(x.Call) == nil && fromParamOrCapture(x.Call.Value) {
+						if _, isB := x.Call.Value.(*ssa.Builtin); !isB && len(x.Call.Args) == 2 {
+							callsFuncParam = true
+						}
+					}
+				case *ssa.Convert:
+					if fxShortType(x.Type()) == "string" && isByteSlice(x.X.Type()) {
+						isString = true
+					}
+				}
 			}
 		}
 	}
-	if info.Length == nil || info.Bytes == nil {
+	if info.Length == nil || info.Bytes == nil || loopFn == nil {
 		return nil
 	}
-	usesReflectNew, callsFuncParam := false, false
-	for _, b := range fn.Blocks {
+	switch {
+	case isString && !usesReflectNew:
+		info.Kind = "string"
+	case usesReflectNew && callsFuncParam && !isString:
+		info.Kind = "eface"
+	default:
+		return nil
+	}
+	// the store of the decoded element into the output list
+	for _, b := range loopFn.Blocks {
 		for _, ins := range b.Instrs {
-			switch x := ins.(type) {
-			case *ssa.Call:
-				if sc := x.Call.StaticCallee(); sc != nil && fxFullName(sc) == "reflect.New" {
-					if _, isP := fxStripNoConv(x.Call.Args[0]).(*ssa.Parameter); isP {
-						usesReflectNew = true
-					}
-				}
-				if _, isP := ir.ResolveCell(x.Call.Value).(*ssa.Parameter); isP && !x.Call.IsInvoke() && x.Call.StaticCallee() == nil {
-					callsFuncParam = true
-				}
-			case *ssa.Store:
-				if _, isIA := x.Addr.(*ssa.IndexAddr); !isIA {
-					continue
-				}
-				if mi, ok := x.Val.(*ssa.MakeInterface); ok {
-					if cv, ok := mi.X.(*ssa.Convert); ok && fxShortType(cv.Type()) == "string" && isByteSlice(cv.X.Type()) {
-						info.Kind = "string"
-						info.ElemStor = x
-					}
+			if st, ok := ins.(*ssa.Store); ok {
+				if _, isIA := st.Addr.(*ssa.IndexAddr); isIA && !ir.IsNilConst(st.Val) && info.ElemStor == nil {
+					info.ElemStor = st
 				}
 			}
 		}
 	}
-	if info.Kind == "" && usesReflectNew && callsFuncParam {
-		info.Kind = "eface"
-	}
-	if info.Kind == "" {
+	if info.ElemStor == nil {
 		return nil
 	}
 	return info
@@ -959,7 +1030,7 @@ func decodedElems(v ssa.Value, env *fxEnv, depth int) []elemOrigin {
 		return nil
 	}
 	if call, idx := fxCallOf(v); call != nil && idx == 0 {
-		if callee := call.Call.StaticCallee(); callee != nil && fxOwnFunc(callee) {
+		if callee := ir.Callee(call.Call); callee != nil && fxOwnFunc(callee) {
 			if depth >= 2 {
 				return []elemOrigin{{problem: "helper nesting too deep at " + callee.Name()}}
 			}
@@ -1028,7 +1099,7 @@ func decodedElems(v ssa.Value, env *fxEnv, depth int) []elemOrigin {
 		}
 		for _, rr := range *ic.Referrers() {
 			uc, ok := rr.(*ssa.Call)
-			if !ok || uc.Call.IsInvoke() || uc.Call.StaticCallee() != nil || len(uc.Call.Args) != 2 {
+			if !ok || uc.Call.IsInvoke() || ir.Callee(uc.Call) != nil || len(uc.Call.Args) != 2 {
 				continue
 			}
 			src, _ := env.resolve(uc.Call.Args[0])
@@ -1097,7 +1168,7 @@ func runCodecSym(c *Ctx) {
 				if call == nil {
 					break
 				}
-				callee := call.Call.StaticCallee()
+				callee := ir.Callee(call.Call)
 				info := sliceDecoder(callee)
 				target := "?"
 				for _, a := range call.Call.Args[1:] {
@@ -1301,7 +1372,7 @@ func restoreCheck(c *Ctx) {
 		}
 		for _, ci := range CallsOf(fn) {
 			com := ci.Common()
-			if com.IsInvoke() || com.StaticCallee() != nil || len(com.Args) != 2 {
+			if com.IsInvoke() || ir.Callee(com) != nil || len(com.Args) != 2 {
 				continue
 			}
 			if mi, ok := com.Args[1].(*ssa.MakeInterface); ok {
@@ -1596,28 +1667,7 @@ func runFormats(c *Ctx) {
 	if fn == nil {
 		return
 	}
-	recv := fn.Params[0]
-	var got []string
-	for _, b := range fn.Blocks {
-		if len(b.Instrs) == 0 {
-			continue
-		}
-		iff, ok := b.Instrs[len(b.Instrs)-1].(*ssa.If)
-		if !ok {
-			continue
-		}
-		bin, ok := iff.Cond.(*ssa.BinOp)
-		if !ok {
-			continue
-		}
-		for _, pr := range [][2]ssa.Value{{bin.X, bin.Y}, {bin.Y, bin.X}} {
-			if p, path, ok := fxParamField(pr[0]); ok && p == recv && path == "NodeFormat" {
-				if str, ok := fxStringOf(c.P, pr[1]); ok && str != "" {
-					got = append(got, str)
-				}
-			}
-		}
-	}
+	got := loadMastCompared(c, fn)
 	missing, extra := fxSetDiff(want, got)
 	for _, m := range missing {
 		c.Violation(fn, c.P.Pos(fn.Pos()), "format "+m, fmt.Sprintf("LoadMast has no case for node format %q, which flush can write", m))
@@ -1647,7 +1697,7 @@ func freshError(v ssa.Value) bool {
 	if call == nil {
 		return false
 	}
-	sc := call.Call.StaticCallee()
+	sc := ir.Callee(call.Call)
 	if sc == nil {
 		return false
 	}
